@@ -6,6 +6,7 @@ import glob, json, os, shutil, subprocess, sys, tempfile
 from concurrent.futures import ThreadPoolExecutor
 VERIF = os.path.dirname(os.path.dirname(os.path.abspath(__file__)))
 ALL = ["C%02d" % i for i in range(1, 18)]
+OLD_BASE = "e7d44c8"
 
 def sh(cmd, cwd=None, env=None):
     r = subprocess.run(cmd, shell=True, cwd=cwd, env=env, stdout=subprocess.PIPE, stderr=subprocess.STDOUT, text=True)
@@ -19,9 +20,16 @@ def one(sid):
     ev = tempfile.mkdtemp(prefix="seedev_")
     try:
         sh("git -C /repo worktree add --detach %s HEAD" % scratch)
-        rc, o = sh("git apply %s" % os.path.join(d, "patch.diff"), cwd=scratch)
+        pf = os.path.join(d, "patch_head.diff") if os.path.exists(os.path.join(d, "patch_head.diff")) else os.path.join(d, "patch.diff")
+        rc, o = sh("git apply %s" % pf, cwd=scratch)
         if rc != 0:
-            return sid, "patch no longer applies", {}
+            # written against an older /repo commit whose lines were since repaired: evaluate it on that commit
+            base = meta.get("base_commit") or OLD_BASE
+            sh("git checkout -q --detach %s" % base, cwd=scratch)
+            rc, o = sh("git apply %s" % os.path.join(d, "patch.diff"), cwd=scratch)
+            if rc != 0:
+                return sid, "patch no longer applies", {}
+            meta["evaluated_on"] = base
         env = dict(os.environ, NFSA_REPO=scratch, NFSA_EVIDENCE_DIR=ev)
         fired = {}
         for p in props:
